@@ -285,17 +285,27 @@ func (s *Set) Equal(a *Set) bool {
 	} else if lens == 0 && lena == 0 {
 		return true
 	}
+	// compare maximal runs of consecutive symbols: {1-2}{3-4} equals {1-4}
 	x, y := s.Head.Forward, a.Head.Forward
-	for {
-		if x.Begin != y.Begin || x.End != y.End {
+	for x.Forward != nil && y.Forward != nil {
+		xBegin, xEnd, xNext := run(x)
+		yBegin, yEnd, yNext := run(y)
+		if xBegin != yBegin || xEnd != yEnd {
 			return false
 		}
-		x, y = x.Forward, y.Forward
-		if x == nil && y == nil {
-			break
-		}
+		x, y = xNext, yNext
 	}
-	return true
+	return x.Forward == nil && y.Forward == nil
+}
+
+// run returns the bounds of the maximal run of consecutive symbols that starts
+// at node (adjacent and overlapping intervals form one run) and the node after it.
+func run(node *Node) (begin, end rune, next *Node) {
+	begin, end = node.Begin, node.End
+	for next = node.Forward; next.Forward != nil && next.Begin-1 <= end; next = next.Forward {
+		end = max(end, next.End)
+	}
+	return begin, end, next
 }
 
 // Len returns the size of the set.
